@@ -185,7 +185,7 @@ func fillParams(r rng, op *Op) {
 		op.P = r.pick(-1, -1, 0, 1, 5, 17, 19, 20, 40)
 	case "Format":
 		op.S = r.pickS("%v", "%g", "%e", "%.10e", "%+15.3f", "%-30.5G", "%030.8e", "% .4g", "%s", "%b", "%10.0f", "%F", "%d")
-	case "Float":
+	case "Float", "FloatTo":
 		op.P = r.pick(0, 0, 24, 53, 64, 100, 300)
 		op.M = r.intn(6)
 	}
